@@ -139,3 +139,19 @@ func (in *Interp) InstallTimeStubs() {
 	in.Stubs["time.Time.After"] = cmp(func(a, b int64) bool { return a > b })
 	in.Stubs["time.Time.Equal"] = cmp(func(a, b int64) bool { return a == b })
 }
+
+// InstallErrorStubs models errors.New / fmt.Errorf / errors.Is as opaque error values.
+func (in *Interp) InstallErrorStubs() {
+	in.Stubs["errors.New"] = func(in *Interp, _ Value, args []Value) ([]Value, error) {
+		s, _ := args[0].(string)
+		return []Value{ErrVal{Tag: s}}, nil
+	}
+	in.Stubs["fmt.Errorf"] = func(in *Interp, _ Value, args []Value) ([]Value, error) {
+		for _, a := range args[1:] {
+			if e, ok := a.(ErrVal); ok {
+				return []Value{ErrVal{Tag: "wrapped:" + e.Tag}}, nil
+			}
+		}
+		return []Value{ErrVal{Tag: "fmt.Errorf"}}, nil
+	}
+}
